@@ -512,3 +512,77 @@ package statsd
 //@   loop 7 invariant forall n string, t string :: n in pbMetricMap.Sets && pbMetricMap.Sets[n] != nil && t in pbMetricMap.Sets[n].TagMap && pbMetricMap.Sets[n].TagMap[t] != nil ==> elems(pbMetricMap.Sets[n].TagMap[t].Values) == pre(elems(pbMetricMap.Sets[n].TagMap[t].Values))
 //@   loop 7 invariant (base(values) == 0 || loopFresh(base(values))) && (forall i int :: off(values) <= i && i < off(values) + len(values) ==> (at(values, i) in metric.Values)) && (forall x string :: visited(7)[x] ==> (exists i int :: off(values) <= i && i < off(values) + len(values) && at(values, i) == x))
 //@   modifies everything
+
+// ---- handler_backend.go (C19): an event goes to every backend exactly once -------------------------------------
+// DispatchEvent starts one sending goroutine per backend (in order, each with its own backend and the same event),
+// and the wait group is credited with exactly the number of goroutines started -- also when the context is
+// cancelled half-way.
+//@ func (*BackendHandler).DispatchEvent
+//@   requires bh != nil && e != nil && len(bh.backends) <= 1000000
+//@   callsite DispatchEvent$1 requires b == backend && calls(go1) == rangeindex + 1
+//@   callsite Add[eventsDispatched] requires delta == calls(go1) - len(bh.backends)
+//@   callsite Add[(len(bh.backends))] requires delta == len(bh.backends) && calls(go1) == 0
+//@   loop 1 invariant calls(go1) == rangeindex + 1 && eventsDispatched == rangeindex + 1 && calls(Add) == 1 && bh.backends == old(bh.backends)
+//@   ensures  calls(Add) == 1 ==> calls(go1) == len(bh.backends)
+//@   modifies everything
+//@   preserves statsd.BackendHandler
+// the goroutine: one send to its backend, of the event it was given
+//@ func (*BackendHandler).DispatchEvent$1
+//@   requires bh != nil && b != nil
+//@   callsite internalDispatchEvent requires backend == b
+//@   ensures  calls(internalDispatchEvent) == 1
+//@   modifies everything
+// internalDispatchEvent: exactly one SendEvent, then the slot is released and the wait group is debited, once each
+//@ func (*BackendHandler).internalDispatchEvent
+//@   requires bh != nil && backend != nil
+//@   callsite SendEvent requires arg1 == e
+//@   ensures  calls(SendEvent) == 1 && calls(Done) == 1 && received(bh.concurrentEvents) == old(received(bh.concurrentEvents)) + 1
+//@   modifies everything
+//@   preserves statsd.BackendHandler
+
+// ---- handler_cloud.go (C19): an event goes through the cloud stage exactly once ----------------------------------
+// DispatchEvent: a cache hit forwards the (enriched) event at once; otherwise the event is counted into the wait
+// group and queued for the handler's goroutine -- or, when the context is done, un-counted again and dropped.
+//@ func (*CloudHandler).DispatchEvent
+//@   requires ch != nil && ch.handler != nil && e != nil && ch.cachedInstances != nil
+//@   callsite DispatchEvent requires arg1 == e && calls(wg.Add) == 0
+//@   sendsite requires [gostatsd.Event] ch == self.incomingEvents && val == e && calls(wg.Add) == 1 && calls(wg.Done) == 0
+//@   ensures  calls(DispatchEvent) + (sent(old(ch.incomingEvents)) - old(sent(ch.incomingEvents))) + calls(wg.Done) == 1
+//@   ensures  calls(wg.Done) <= calls(wg.Add) && calls(wg.Add) <= 1
+//@   modifies everything
+//@ func (*CloudHandler).updateTagsAndHostname
+//@   trusted
+//@   modifies everything
+//@   preserves statsd.CloudHandler
+
+// updateAndDispatchEvents: every parked event of the source is enriched and forwarded exactly once, in order, and the
+// wait group is debited by exactly the number forwarded.
+//@ func (*CloudHandler).updateAndDispatchEvents
+//@   requires ch != nil && ch.handler != nil
+//@   callsite DispatchEvent requires arg1 == e && calls(DispatchEvent) == rangeindex
+//@   callsite Add requires delta == 0 - calls(DispatchEvent)
+//@   loop 1 invariant calls(DispatchEvent) == rangeindex + 1 && dispatched == rangeindex + 1 && ch.handler != nil && calls(Add) == 0
+//@   ensures  calls(DispatchEvent) == len(events) && calls(Add) == 1
+//@   modifies everything
+//@ func updateInplace
+//@   trusted
+//@   modifies everything
+//@   preserves statsd.CloudHandler
+
+// ---- forwarder events (C14/C19): the message posted upstream carries the event's fields ------------------------
+//@ func (*HttpForwarderHandlerV2).DispatchEvent
+//@   requires hfh != nil && e != nil
+//@   callsite dispatchEvent requires arg1 == e
+//@   ensures  calls(eventWg.Add) == 1 && calls(go1) == 1
+//@   modifies everything
+//@ func (*HttpForwarderHandlerV2).dispatchEvent
+//@   requires hfh != nil && e != nil
+//@   callsite post requires local(message).Title == e.Title && local(message).Text == e.Text && local(message).DateHappened == e.DateHappened && local(message).Hostname == e.Source && local(message).AggregationKey == e.AggregationKey && local(message).SourceTypeName == e.SourceTypeName && local(message).Tags == e.Tags
+//@   callsite post requires (e.Priority == gostatsd.PriLow) == (local(message).Priority == pb.EventV2_Low) && (e.Priority == gostatsd.PriNormal ==> local(message).Priority == pb.EventV2_Normal)
+//@   callsite post requires (e.AlertType == gostatsd.AlertInfo ==> local(message).Type == pb.EventV2_Info) && (e.AlertType == gostatsd.AlertWarning ==> local(message).Type == pb.EventV2_Warning) && (e.AlertType == gostatsd.AlertError ==> local(message).Type == pb.EventV2_Error) && (e.AlertType == gostatsd.AlertSuccess ==> local(message).Type == pb.EventV2_Success)
+//@   ensures  calls(post) == 1 && calls(eventWg.Done) == 1
+//@   modifies everything
+//@ func (*HttpForwarderHandlerV2).post
+//@   trusted
+//@   modifies everything
+//@   preserves statsd.HttpForwarderHandlerV2
